@@ -87,9 +87,12 @@ def transform(c, X):
         return X[:, perm], {"perm": [int(v) for v in perm]}
     if sym == "shift":
         # (a level of several thousand spreads for single-precision input: squares no longer fit 24 bits)
-        return X + g.choice([-7.5, 3.25, 11.0], size=c["p"]) * max(c["sd"], 1e-3) * (24 if c.get("f32") else 3), {}
+        # single-precision input: large enough that squares (and, for the scorers without a log-variance, running sums) no longer
+        # fit 24 bits
+        big = 24 if "gvar" in c.get("scorer", "") else 4096
+        return X + g.choice([-7.5, 3.25, 11.0], size=c["p"]) * max(c["sd"], 1e-3) * (big if c.get("f32") else 3), {}
     if sym == "scale":
-        return X * float(g.choice([0.5, 3.0, 10.0, 1000.0])), {}
+        return X * float(g.choice([1000.0, 0.001] if c.get("wide") else [0.5, 3.0, 10.0, 1000.0])), {}
     return X[::-1].copy(), {}
 
 
@@ -116,6 +119,11 @@ def gen_case(rng, kind):
         c["m"] = rng.randint(2, 3)
         c["pfam"] = rng.choice(["sparse", "combined", "intermediate", "dense"])
         c["scale"] = rng.choice([0.3, 0.6, 1.0])
+    if kind == "scorer" and rng.random() < 0.004:
+        # many columns: under rescaling by a the determinant of a covariance changes by a^(2p), far outside the floating-point range,
+        # while its logarithm changes by 2 p log a — the multivariate change score is still invariant
+        c.update(sym="scale", scorer="chg-gcov", p=rng.choice([60, 80]), sd=1.0, nchg=1, nanom=0, f32=False, wide=True)
+        c["n"] = 2 * c["p"] + rng.randint(8, 20)
     return c
 
 
@@ -129,7 +137,8 @@ def mk_scorer(name):
 
     return {"l2": lambda: L2Cost(), "gvar": lambda: GaussianVarCost(), "gcov": lambda: GaussianCovCost(), "cusum": lambda: CUSUM(),
             "l2saving": lambda: L2Saving(), "chg-l2": lambda: ChangeScore(L2Cost()), "chg-gvar": lambda: ChangeScore(GaussianVarCost()),
-            "loc-l2": lambda: LocalAnomalyScore(L2Cost()), "loc-gvar": lambda: LocalAnomalyScore(GaussianVarCost())}[name]()
+            "loc-l2": lambda: LocalAnomalyScore(L2Cost()), "loc-gvar": lambda: LocalAnomalyScore(GaussianVarCost()),
+            "chg-gcov": lambda: ChangeScore(GaussianCovCost())}[name]()
 
 
 def windows_of(q):
@@ -163,7 +172,7 @@ def scorer_cuts(c, sc):
     if k == 4:
         cuts = [q for q in cuts if q[2] - q[1] >= ms and (q[1] - q[0]) + (q[3] - q[2]) >= ms]
     batches = [cuts] if cuts else []
-    if k == 3 and n >= 14:
+    if k == 3 and n >= 14 and ms <= 5:
         L = 2 * rng.randint(max(2, ms), 5)
         s0 = rng.randint(0, n - L - 3)
         batches.append([(s0, s0 + L // 2, s0 + L)] + [(s0 + d, s0 + d + rng.randint(ms, L - ms), s0 + d + L) for d in (0, 1, 2, 3)])
